@@ -258,8 +258,10 @@ def rootfind_budget_signature(law, trial, e_old, dt, max_iters=50, noise=0.0):
     n_needed = math.log2(W / dx) if dx > 0 else float("inf")
     unrepresentable = dx < spacing
     match = bool(unrepresentable or (law.rate and n_needed >= float(max_iters)))
-    # number of floats spanned by the library's bracket [eqps_old, eqps_old + W]: its 10*tol*Y0/(3 mu) pad (D16 repair) is an
-    # absolute strain and drops below the float spacing of eqps once eqps/(Y0/3mu) >~ 1e7 (finding C09-N4)
-    bracket_floats = W / float(onp.spacing(max(e_old, 1e-300)))
+    # The library's bracket is [eqps_old, eqps_old + W]; the root sits at D*, leaving the margin W - D* beyond it: the D16 pad
+    # 10*tol*Y0/(3 mu) (an absolute strain) plus the hardening contribution.  Once that margin is below a few float spacings
+    # of eqps (flat hardening and eqps/(Y0/3mu) >~ 5e6) the computed upper end can fall short of the root, both residuals
+    # have the same sign and find_root returns NaN (finding C09-N4); `bracket_floats` = margin in float spacings.
+    bracket_floats = (W - Dstar) / float(onp.spacing(max(e_old + W, 1e-300)))
     return {"match": match, "rate": law.rate, "bracket_floats": bracket_floats, "root_increment": Dstar, "bracket_width": W, "tolerance_band_halfwidth": dx,
             "spacing_at_root": spacing, "bisections_needed": n_needed, "unrepresentable": bool(unrepresentable)}
